@@ -178,6 +178,7 @@ type FnExec struct {
 	inputNames []string
 	depthLimit int
 	caseTag    string
+	coverReturns bool
 	heapInvs   map[string][]*HeapInv // resolved lazily: heap name -> invariants
 }
 
@@ -924,6 +925,8 @@ func (x *FnExec) writeSetCall(fn *ssa.Function, in ssa.CallInstruction, out map[
 	if c.IsInvoke() {
 		if spec := x.eng.ifaceSpec(c); spec != nil {
 			x.specModifies(spec, out)
+		} else if lm := x.eng.libInvokeModel(c); lm != nil && lm.writes != nil {
+			lm.writes(x, c, out)
 		}
 		return
 	}
